@@ -16,16 +16,26 @@ package originium
 
 import (
 	"errors"
+	"math"
 
 	"github.com/B1NARY-GR0UP/originium/types"
 	"github.com/B1NARY-GR0UP/originium/utils"
 )
 
 var (
-	ErrReadOnlyTxn  = errors.New("transaction is read-only")
-	ErrDiscardedTxn = errors.New("transaction has been discarded")
-	ErrConflictTxn  = errors.New("transaction has a conflict")
-	ErrEmptyKey     = errors.New("key is empty")
+	ErrReadOnlyTxn   = errors.New("transaction is read-only")
+	ErrDiscardedTxn  = errors.New("transaction has been discarded")
+	ErrConflictTxn   = errors.New("transaction has a conflict")
+	ErrEmptyKey      = errors.New("key is empty")
+	ErrKeyTooLarge   = errors.New("key is too large")
+	ErrValueTooLarge = errors.New("value is too large")
+)
+
+const (
+	// key and value lengths are stored in 16 bits inside a sstable,
+	// the stored key carries the suffix "@<commitTs>" (at most 21 bytes)
+	MaxKeySize   = math.MaxUint16 - 21
+	MaxValueSize = math.MaxUint16
 )
 
 type Txn struct {
@@ -149,6 +159,10 @@ func (t *Txn) modify(e types.Entry) error {
 		return ErrDiscardedTxn
 	case e.Key == "":
 		return ErrEmptyKey
+	case len(e.Key) > MaxKeySize:
+		return ErrKeyTooLarge
+	case len(e.Value) > MaxValueSize:
+		return ErrValueTooLarge
 	}
 
 	// record key fingerprint
